@@ -1,5 +1,5 @@
 // auto-generated: "lalrpop 0.23.1"
-// sha3: 8140b292054a2d45b114de278e4fd12ea98c5d21e716210dc8917a5a7fdc902e
+// sha3: 568f83b068db4f9c8c978e8b75ed214c067892e0d9faa880fdcbd67701c9005a
 use crate::rt::*;
 #[allow(unused_extern_crates)]
 extern crate lalrpop_util as __lalrpop_util;
@@ -29,73 +29,70 @@ mod __parse__S {
     }
     const __ACTION: &[i8] = &[
         // State 0
-        3, 0, 0, 0, 0,
+        6, 0, 0,
         // State 1
-        -3, 0, 0, 6, 0,
+        0, 8, 0,
         // State 2
-        0, -3, 0, 6, 0,
+        6, 0, 0,
         // State 3
-        0, 0, -3, 6, 0,
+        0, 8, 0,
         // State 4
-        8, 0, 0, 0, 0,
+        0, 0, 3,
         // State 5
-        0, 0, 0, 0, 9,
+        9, -5, 0,
         // State 6
-        0, 4, 0, 0, 0,
+        0, 0, -3,
         // State 7
-        -6, 0, 0, -6, 0,
+        0, 0, -7,
         // State 8
-        -4, -4, -4, 0, 0,
+        0, -6, 0,
         // State 9
-        0, 0, 11, 0, 0,
-        // State 10
-        -5, 0, 0, -5, 0,
+        0, 0, -4,
     ];
     fn __action(state: i8, integer: usize) -> i8 {
-        __ACTION[(state as usize) * 5 + integer]
+        __ACTION[(state as usize) * 3 + integer]
     }
     const __EOF_ACTION: &[i8] = &[
         // State 0
         0,
         // State 1
-        -7,
+        0,
         // State 2
         0,
         // State 3
         0,
         // State 4
-        0,
+        -8,
         // State 5
         0,
         // State 6
-        0,
+        -3,
         // State 7
-        -6,
+        -7,
         // State 8
         0,
         // State 9
-        0,
-        // State 10
-        -5,
+        -4,
     ];
     fn __goto(state: i8, nt: usize) -> i8 {
         match nt {
-            2 => match state {
-                2 => 6,
-                3 => 9,
-                _ => 4,
+            2 => 4,
+            3 => match state {
+                2 => 3,
+                _ => 1,
             },
-            3 => 1,
+            4 => match state {
+                3 => 9,
+                _ => 6,
+            },
             _ => 0,
         }
     }
     #[allow(clippy::needless_raw_string_hashes)]
     const __TERMINAL: &[&str] = &[
-        r###""a""###,
-        r###""b""###,
-        r###""c""###,
-        r###""o""###,
-        r###""p""###,
+        r###""x""###,
+        r###""y""###,
+        r###""z""###,
     ];
     fn __expected_tokens(__state: i8) -> alloc::vec::Vec<alloc::string::String> {
         __TERMINAL.iter().enumerate().filter_map(|(index, terminal)| {
@@ -162,7 +159,7 @@ mod __parse__S {
 
         #[inline]
         fn error_action(&self, state: i8) -> i8 {
-            __action(state, 5 - 1)
+            __action(state, 3 - 1)
         }
 
         #[inline]
@@ -231,8 +228,6 @@ mod __parse__S {
             Tok('a', _, _, _) if true => Some(0),
             Tok('b', _, _, _) if true => Some(1),
             Tok('c', _, _, _) if true => Some(2),
-            Tok('d', _, _, _) if true => Some(3),
-            Tok('e', _, _, _) if true => Some(4),
             _ => None,
         }
     }
@@ -244,7 +239,7 @@ mod __parse__S {
     ) -> __Symbol<>
     {
         #[allow(clippy::manual_range_patterns)]match __token_index {
-            0 | 1 | 2 | 3 | 4 => __Symbol::Variant0(__token),
+            0 | 1 | 2 => __Symbol::Variant0(__token),
             _ => unreachable!(),
         }
     }
@@ -269,29 +264,35 @@ mod __parse__S {
             }
             2 => {
                 __state_machine::SimulatedReduce::Reduce {
-                    states_to_pop: 0,
+                    states_to_pop: 2,
                     nonterminal_produced: 2,
                 }
             }
             3 => {
                 __state_machine::SimulatedReduce::Reduce {
-                    states_to_pop: 2,
+                    states_to_pop: 4,
                     nonterminal_produced: 2,
                 }
             }
             4 => {
                 __state_machine::SimulatedReduce::Reduce {
-                    states_to_pop: 5,
+                    states_to_pop: 1,
                     nonterminal_produced: 3,
                 }
             }
             5 => {
                 __state_machine::SimulatedReduce::Reduce {
-                    states_to_pop: 3,
+                    states_to_pop: 2,
                     nonterminal_produced: 3,
                 }
             }
-            6 => __state_machine::SimulatedReduce::Accept,
+            6 => {
+                __state_machine::SimulatedReduce::Reduce {
+                    states_to_pop: 1,
+                    nonterminal_produced: 4,
+                }
+            }
+            7 => __state_machine::SimulatedReduce::Accept,
             _ => panic!("invalid reduction index {__reduce_index}")
         }
     }
@@ -381,12 +382,44 @@ mod __parse__S {
                 __reduce3(__lookahead_start, __symbols, core::marker::PhantomData::<()>)
             }
             4 => {
-                __reduce4(__lookahead_start, __symbols, core::marker::PhantomData::<()>)
+                // X = "x" => ActionFn(15);
+                let __sym0 = __pop_Variant0(__symbols);
+                let __start = __sym0.0.clone();
+                let __end = __sym0.2.clone();
+                let __nt = match super::__action15::<>(__sym0) {
+                    Ok(v) => v,
+                    Err(e) => return Some(Err(e)),
+                };
+                __symbols.push((__start, __Symbol::Variant2(__nt), __end));
+                (1, 3)
             }
             5 => {
-                __reduce5(__lookahead_start, __symbols, core::marker::PhantomData::<()>)
+                // X = "x", "x" => ActionFn(16);
+                assert!(__symbols.len() >= 2);
+                let __sym1 = __pop_Variant0(__symbols);
+                let __sym0 = __pop_Variant0(__symbols);
+                let __start = __sym0.0.clone();
+                let __end = __sym1.2.clone();
+                let __nt = match super::__action16::<>(__sym0, __sym1) {
+                    Ok(v) => v,
+                    Err(e) => return Some(Err(e)),
+                };
+                __symbols.push((__start, __Symbol::Variant2(__nt), __end));
+                (2, 3)
             }
             6 => {
+                // Y = "y" => ActionFn(17);
+                let __sym0 = __pop_Variant0(__symbols);
+                let __start = __sym0.0.clone();
+                let __end = __sym0.2.clone();
+                let __nt = match super::__action17::<>(__sym0) {
+                    Ok(v) => v,
+                    Err(e) => return Some(Err(e)),
+                };
+                __symbols.push((__start, __Symbol::Variant2(__nt), __end));
+                (1, 4)
+            }
+            7 => {
                 // __S = S => ActionFn(0);
                 let __sym0 = __pop_Variant2(__symbols);
                 let __start = __sym0.0.clone();
@@ -444,10 +477,10 @@ mod __parse__S {
         _: core::marker::PhantomData<()>,
     ) -> (usize, usize)
     {
-        // @L =  => ActionFn(6);
+        // @L =  => ActionFn(7);
         let __start = __lookahead_start.cloned().or_else(|| __symbols.last().map(|s| s.2.clone())).unwrap_or_default();
         let __end = __start.clone();
-        let __nt = super::__action6::<>(&__start, &__end);
+        let __nt = super::__action7::<>(&__start, &__end);
         __symbols.push((__start, __Symbol::Variant1(__nt), __end));
         (0, 0)
     }
@@ -458,10 +491,10 @@ mod __parse__S {
         _: core::marker::PhantomData<()>,
     ) -> (usize, usize)
     {
-        // @R =  => ActionFn(5);
+        // @R =  => ActionFn(6);
         let __start = __lookahead_start.cloned().or_else(|| __symbols.last().map(|s| s.2.clone())).unwrap_or_default();
         let __end = __start.clone();
-        let __nt = super::__action5::<>(&__start, &__end);
+        let __nt = super::__action6::<>(&__start, &__end);
         __symbols.push((__start, __Symbol::Variant1(__nt), __end));
         (0, 1)
     }
@@ -472,12 +505,15 @@ mod __parse__S {
         _: core::marker::PhantomData<()>,
     ) -> (usize, usize)
     {
-        // O =  => ActionFn(11);
-        let __start = __lookahead_start.cloned().or_else(|| __symbols.last().map(|s| s.2.clone())).unwrap_or_default();
-        let __end = __start.clone();
-        let __nt = super::__action11::<>(&__start, &__end);
+        // S = X, Y => ActionFn(13);
+        assert!(__symbols.len() >= 2);
+        let __sym1 = __pop_Variant2(__symbols);
+        let __sym0 = __pop_Variant2(__symbols);
+        let __start = __sym0.0.clone();
+        let __end = __sym1.2.clone();
+        let __nt = super::__action13::<>(__sym0, __sym1);
         __symbols.push((__start, __Symbol::Variant2(__nt), __end));
-        (0, 2)
+        (2, 2)
     }
     fn __reduce3<
     >(
@@ -486,53 +522,17 @@ mod __parse__S {
         _: core::marker::PhantomData<()>,
     ) -> (usize, usize)
     {
-        // O = "o", "p" => ActionFn(12);
-        assert!(__symbols.len() >= 2);
-        let __sym1 = __pop_Variant0(__symbols);
-        let __sym0 = __pop_Variant0(__symbols);
-        let __start = __sym0.0.clone();
-        let __end = __sym1.2.clone();
-        let __nt = super::__action12::<>(__sym0, __sym1);
-        __symbols.push((__start, __Symbol::Variant2(__nt), __end));
-        (2, 2)
-    }
-    fn __reduce4<
-    >(
-        __lookahead_start: Option<&i64>,
-        __symbols: &mut alloc::vec::Vec<(i64,__Symbol<>,i64)>,
-        _: core::marker::PhantomData<()>,
-    ) -> (usize, usize)
-    {
-        // S = "a", O, "b", O, "c" => ActionFn(13);
-        assert!(__symbols.len() >= 5);
-        let __sym4 = __pop_Variant0(__symbols);
+        // S = S, "z", X, Y => ActionFn(14);
+        assert!(__symbols.len() >= 4);
         let __sym3 = __pop_Variant2(__symbols);
-        let __sym2 = __pop_Variant0(__symbols);
-        let __sym1 = __pop_Variant2(__symbols);
-        let __sym0 = __pop_Variant0(__symbols);
-        let __start = __sym0.0.clone();
-        let __end = __sym4.2.clone();
-        let __nt = super::__action13::<>(__sym0, __sym1, __sym2, __sym3, __sym4);
-        __symbols.push((__start, __Symbol::Variant2(__nt), __end));
-        (5, 3)
-    }
-    fn __reduce5<
-    >(
-        __lookahead_start: Option<&i64>,
-        __symbols: &mut alloc::vec::Vec<(i64,__Symbol<>,i64)>,
-        _: core::marker::PhantomData<()>,
-    ) -> (usize, usize)
-    {
-        // S = S, O, "a" => ActionFn(14);
-        assert!(__symbols.len() >= 3);
-        let __sym2 = __pop_Variant0(__symbols);
-        let __sym1 = __pop_Variant2(__symbols);
+        let __sym2 = __pop_Variant2(__symbols);
+        let __sym1 = __pop_Variant0(__symbols);
         let __sym0 = __pop_Variant2(__symbols);
         let __start = __sym0.0.clone();
-        let __end = __sym2.2.clone();
-        let __nt = super::__action14::<>(__sym0, __sym1, __sym2);
+        let __end = __sym3.2.clone();
+        let __nt = super::__action14::<>(__sym0, __sym1, __sym2, __sym3);
         __symbols.push((__start, __Symbol::Variant2(__nt), __end));
-        (3, 3)
+        (4, 2)
     }
 }
 #[allow(unused_imports)]
@@ -551,15 +551,12 @@ fn __action0<
 fn __action1<
 >(
     (_, l, _): (i64, i64, i64),
-    (_, c0, _): (i64, Tok, i64),
+    (_, c0, _): (i64, Tree, i64),
     (_, c1, _): (i64, Tree, i64),
-    (_, c2, _): (i64, Tok, i64),
-    (_, c3, _): (i64, Tree, i64),
-    (_, c4, _): (i64, Tok, i64),
     (_, r, _): (i64, i64, i64),
 ) -> Tree
 {
-    node("S#0", l, r, vec![Tree::from(c0), Tree::from(c1), Tree::from(c2), Tree::from(c3), Tree::from(c4)])
+    node("S#0", l, r, vec![Tree::from(c0), Tree::from(c1)])
 }
 
 #[allow(clippy::too_many_arguments, clippy::needless_lifetimes, clippy::just_underscores_and_digits, clippy::extra_unused_type_parameters)]
@@ -567,22 +564,24 @@ fn __action2<
 >(
     (_, l, _): (i64, i64, i64),
     (_, c0, _): (i64, Tree, i64),
-    (_, c1, _): (i64, Tree, i64),
-    (_, c2, _): (i64, Tok, i64),
+    (_, c1, _): (i64, Tok, i64),
+    (_, c2, _): (i64, Tree, i64),
+    (_, c3, _): (i64, Tree, i64),
     (_, r, _): (i64, i64, i64),
 ) -> Tree
 {
-    node("S#1", l, r, vec![Tree::from(c0), Tree::from(c1), Tree::from(c2)])
+    node("S#1", l, r, vec![Tree::from(c0), Tree::from(c1), Tree::from(c2), Tree::from(c3)])
 }
 
 #[allow(clippy::too_many_arguments, clippy::needless_lifetimes, clippy::just_underscores_and_digits, clippy::extra_unused_type_parameters)]
 fn __action3<
 >(
     (_, l, _): (i64, i64, i64),
+    (_, c0, _): (i64, Tok, i64),
     (_, r, _): (i64, i64, i64),
-) -> Tree
+) -> Result<Tree,__lalrpop_util::ParseError<i64,Tok,u64>>
 {
-    node("O#0", l, r, vec![])
+    fallible("X#0", l, r, vec![Tree::from(c0)])
 }
 
 #[allow(clippy::too_many_arguments, clippy::needless_lifetimes, clippy::just_underscores_and_digits, clippy::extra_unused_type_parameters)]
@@ -592,13 +591,24 @@ fn __action4<
     (_, c0, _): (i64, Tok, i64),
     (_, c1, _): (i64, Tok, i64),
     (_, r, _): (i64, i64, i64),
-) -> Tree
+) -> Result<Tree,__lalrpop_util::ParseError<i64,Tok,u64>>
 {
-    node("O#1", l, r, vec![Tree::from(c0), Tree::from(c1)])
+    fallible("X#1", l, r, vec![Tree::from(c0), Tree::from(c1)])
+}
+
+#[allow(clippy::too_many_arguments, clippy::needless_lifetimes, clippy::just_underscores_and_digits, clippy::extra_unused_type_parameters)]
+fn __action5<
+>(
+    (_, l, _): (i64, i64, i64),
+    (_, c0, _): (i64, Tok, i64),
+    (_, r, _): (i64, i64, i64),
+) -> Result<Tree,__lalrpop_util::ParseError<i64,Tok,u64>>
+{
+    fallible("Y#0", l, r, vec![Tree::from(c0)])
 }
 
 #[allow(clippy::needless_lifetimes, clippy::clone_on_copy)]
-fn __action5<
+fn __action6<
 >(
     __lookbehind: &i64,
     __lookahead: &i64,
@@ -608,7 +618,7 @@ fn __action5<
 }
 
 #[allow(clippy::needless_lifetimes, clippy::clone_on_copy)]
-fn __action6<
+fn __action7<
 >(
     __lookbehind: &i64,
     __lookahead: &i64,
@@ -619,14 +629,67 @@ fn __action6<
 
 #[allow(clippy::too_many_arguments, clippy::needless_lifetimes,
     clippy::just_underscores_and_digits, clippy::clone_on_copy, clippy::unit_arg)]
-fn __action7<
+fn __action8<
 >(
-    __0: (i64, i64, i64),
+    __0: (i64, Tree, i64),
+    __1: (i64, Tree, i64),
+    __2: (i64, i64, i64),
 ) -> Tree
 {
     let __start0 = __0.0.clone();
     let __end0 = __0.0.clone();
-    let __temp0 = __action6(
+    let __temp0 = __action7(
+        &__start0,
+        &__end0,
+    );
+    let __temp0 = (__start0, __temp0, __end0);
+    __action1(
+        __temp0,
+        __0,
+        __1,
+        __2,
+    )
+}
+
+#[allow(clippy::too_many_arguments, clippy::needless_lifetimes,
+    clippy::just_underscores_and_digits, clippy::clone_on_copy, clippy::unit_arg)]
+fn __action9<
+>(
+    __0: (i64, Tree, i64),
+    __1: (i64, Tok, i64),
+    __2: (i64, Tree, i64),
+    __3: (i64, Tree, i64),
+    __4: (i64, i64, i64),
+) -> Tree
+{
+    let __start0 = __0.0.clone();
+    let __end0 = __0.0.clone();
+    let __temp0 = __action7(
+        &__start0,
+        &__end0,
+    );
+    let __temp0 = (__start0, __temp0, __end0);
+    __action2(
+        __temp0,
+        __0,
+        __1,
+        __2,
+        __3,
+        __4,
+    )
+}
+
+#[allow(clippy::too_many_arguments, clippy::needless_lifetimes,
+    clippy::just_underscores_and_digits, clippy::clone_on_copy, clippy::unit_arg)]
+fn __action10<
+>(
+    __0: (i64, Tok, i64),
+    __1: (i64, i64, i64),
+) -> Result<Tree,__lalrpop_util::ParseError<i64,Tok,u64>>
+{
+    let __start0 = __0.0.clone();
+    let __end0 = __0.0.clone();
+    let __temp0 = __action7(
         &__start0,
         &__end0,
     );
@@ -634,21 +697,22 @@ fn __action7<
     __action3(
         __temp0,
         __0,
+        __1,
     )
 }
 
 #[allow(clippy::too_many_arguments, clippy::needless_lifetimes,
     clippy::just_underscores_and_digits, clippy::clone_on_copy, clippy::unit_arg)]
-fn __action8<
+fn __action11<
 >(
     __0: (i64, Tok, i64),
     __1: (i64, Tok, i64),
     __2: (i64, i64, i64),
-) -> Tree
+) -> Result<Tree,__lalrpop_util::ParseError<i64,Tok,u64>>
 {
     let __start0 = __0.0.clone();
     let __end0 = __0.0.clone();
-    let __temp0 = __action6(
+    let __temp0 = __action7(
         &__start0,
         &__end0,
     );
@@ -663,91 +727,37 @@ fn __action8<
 
 #[allow(clippy::too_many_arguments, clippy::needless_lifetimes,
     clippy::just_underscores_and_digits, clippy::clone_on_copy, clippy::unit_arg)]
-fn __action9<
->(
-    __0: (i64, Tok, i64),
-    __1: (i64, Tree, i64),
-    __2: (i64, Tok, i64),
-    __3: (i64, Tree, i64),
-    __4: (i64, Tok, i64),
-    __5: (i64, i64, i64),
-) -> Tree
-{
-    let __start0 = __0.0.clone();
-    let __end0 = __0.0.clone();
-    let __temp0 = __action6(
-        &__start0,
-        &__end0,
-    );
-    let __temp0 = (__start0, __temp0, __end0);
-    __action1(
-        __temp0,
-        __0,
-        __1,
-        __2,
-        __3,
-        __4,
-        __5,
-    )
-}
-
-#[allow(clippy::too_many_arguments, clippy::needless_lifetimes,
-    clippy::just_underscores_and_digits, clippy::clone_on_copy, clippy::unit_arg)]
-fn __action10<
->(
-    __0: (i64, Tree, i64),
-    __1: (i64, Tree, i64),
-    __2: (i64, Tok, i64),
-    __3: (i64, i64, i64),
-) -> Tree
-{
-    let __start0 = __0.0.clone();
-    let __end0 = __0.0.clone();
-    let __temp0 = __action6(
-        &__start0,
-        &__end0,
-    );
-    let __temp0 = (__start0, __temp0, __end0);
-    __action2(
-        __temp0,
-        __0,
-        __1,
-        __2,
-        __3,
-    )
-}
-
-#[allow(clippy::too_many_arguments, clippy::needless_lifetimes,
-    clippy::just_underscores_and_digits, clippy::clone_on_copy, clippy::unit_arg)]
-fn __action11<
->(
-    __lookbehind: &i64,
-    __lookahead: &i64,
-) -> Tree
-{
-    let __start0 = __lookbehind.clone();
-    let __end0 = __lookahead.clone();
-    let __temp0 = __action5(
-        &__start0,
-        &__end0,
-    );
-    let __temp0 = (__start0, __temp0, __end0);
-    __action7(
-        __temp0,
-    )
-}
-
-#[allow(clippy::too_many_arguments, clippy::needless_lifetimes,
-    clippy::just_underscores_and_digits, clippy::clone_on_copy, clippy::unit_arg)]
 fn __action12<
 >(
     __0: (i64, Tok, i64),
-    __1: (i64, Tok, i64),
+    __1: (i64, i64, i64),
+) -> Result<Tree,__lalrpop_util::ParseError<i64,Tok,u64>>
+{
+    let __start0 = __0.0.clone();
+    let __end0 = __0.0.clone();
+    let __temp0 = __action7(
+        &__start0,
+        &__end0,
+    );
+    let __temp0 = (__start0, __temp0, __end0);
+    __action5(
+        __temp0,
+        __0,
+        __1,
+    )
+}
+
+#[allow(clippy::too_many_arguments, clippy::needless_lifetimes,
+    clippy::just_underscores_and_digits, clippy::clone_on_copy, clippy::unit_arg)]
+fn __action13<
+>(
+    __0: (i64, Tree, i64),
+    __1: (i64, Tree, i64),
 ) -> Tree
 {
     let __start0 = __1.2.clone();
     let __end0 = __1.2.clone();
-    let __temp0 = __action5(
+    let __temp0 = __action6(
         &__start0,
         &__end0,
     );
@@ -761,18 +771,17 @@ fn __action12<
 
 #[allow(clippy::too_many_arguments, clippy::needless_lifetimes,
     clippy::just_underscores_and_digits, clippy::clone_on_copy, clippy::unit_arg)]
-fn __action13<
+fn __action14<
 >(
-    __0: (i64, Tok, i64),
-    __1: (i64, Tree, i64),
-    __2: (i64, Tok, i64),
+    __0: (i64, Tree, i64),
+    __1: (i64, Tok, i64),
+    __2: (i64, Tree, i64),
     __3: (i64, Tree, i64),
-    __4: (i64, Tok, i64),
 ) -> Tree
 {
-    let __start0 = __4.2.clone();
-    let __end0 = __4.2.clone();
-    let __temp0 = __action5(
+    let __start0 = __3.2.clone();
+    let __end0 = __3.2.clone();
+    let __temp0 = __action6(
         &__start0,
         &__end0,
     );
@@ -782,31 +791,68 @@ fn __action13<
         __1,
         __2,
         __3,
-        __4,
         __temp0,
     )
 }
 
 #[allow(clippy::too_many_arguments, clippy::needless_lifetimes,
     clippy::just_underscores_and_digits, clippy::clone_on_copy, clippy::unit_arg)]
-fn __action14<
+fn __action15<
 >(
-    __0: (i64, Tree, i64),
-    __1: (i64, Tree, i64),
-    __2: (i64, Tok, i64),
-) -> Tree
+    __0: (i64, Tok, i64),
+) -> Result<Tree,__lalrpop_util::ParseError<i64,Tok,u64>>
 {
-    let __start0 = __2.2.clone();
-    let __end0 = __2.2.clone();
-    let __temp0 = __action5(
+    let __start0 = __0.2.clone();
+    let __end0 = __0.2.clone();
+    let __temp0 = __action6(
         &__start0,
         &__end0,
     );
     let __temp0 = (__start0, __temp0, __end0);
     __action10(
         __0,
+        __temp0,
+    )
+}
+
+#[allow(clippy::too_many_arguments, clippy::needless_lifetimes,
+    clippy::just_underscores_and_digits, clippy::clone_on_copy, clippy::unit_arg)]
+fn __action16<
+>(
+    __0: (i64, Tok, i64),
+    __1: (i64, Tok, i64),
+) -> Result<Tree,__lalrpop_util::ParseError<i64,Tok,u64>>
+{
+    let __start0 = __1.2.clone();
+    let __end0 = __1.2.clone();
+    let __temp0 = __action6(
+        &__start0,
+        &__end0,
+    );
+    let __temp0 = (__start0, __temp0, __end0);
+    __action11(
+        __0,
         __1,
-        __2,
+        __temp0,
+    )
+}
+
+#[allow(clippy::too_many_arguments, clippy::needless_lifetimes,
+    clippy::just_underscores_and_digits, clippy::clone_on_copy, clippy::unit_arg)]
+fn __action17<
+>(
+    __0: (i64, Tok, i64),
+) -> Result<Tree,__lalrpop_util::ParseError<i64,Tok,u64>>
+{
+    let __start0 = __0.2.clone();
+    let __end0 = __0.2.clone();
+    let __temp0 = __action6(
+        &__start0,
+        &__end0,
+    );
+    let __temp0 = (__start0, __temp0, __end0);
+    __action12(
+        __0,
         __temp0,
     )
 }
